@@ -72,3 +72,26 @@ def c06_unmapped_result_types():
         except NotImplementedError as e:
             bad.append(f"{q!r}: {e}")
     return bool(bad), "; ".join(bad) or "all described"
+
+
+def c07_write_pandas_leaks():
+    import pandas as pd
+
+    import fakesnow.pandas_tools as pt
+    from vf.real import real_conn
+
+    out = []
+    fs, conn = real_conn()
+    df = pd.DataFrame({"A": [1]})
+    try:
+        pt.write_pandas(conn, df, "NOSUCH")
+    except Exception as e:  # noqa: BLE001
+        if type(e).__module__.startswith("duckdb"):
+            out.append(f"missing table -> {type(e).__name__}")
+    conn.close()
+    try:
+        pt.write_pandas(conn, df, "T")
+    except Exception as e:  # noqa: BLE001
+        if type(e).__module__.startswith("duckdb"):
+            out.append(f"closed connection -> {type(e).__name__}")
+    return bool(out), "; ".join(out) or "no engine exception escaped"
